@@ -572,7 +572,7 @@ pub fn h_c11_gset(inp: &Inp) -> u8 {
     }
 }
 
-//@ harness props=C18 covers=3 bounds=thorough:big name=GCounter / PNCounter reset_remove(c): every actor total covered by c is forgotten (increments and decrements alike), the rest is kept; empty clock no-op; c1 then c2 = join; idempotent
+//@ harness props=C01,C05,C18 covers=3 bounds=thorough:big name=GCounter / PNCounter reset_remove(c): every actor total covered by c is forgotten (increments and decrements alike), the rest is kept; empty clock no-op; c1 then c2 = join; idempotent
 #[no_mangle]
 pub fn h_c18_counters(inp: &Inp) -> u8 {
     use crate::ResetRemove;
